@@ -7,3 +7,5 @@ CARGO_TARGET_DIR="$(cd .. && pwd)/target"
 export CARGO_TARGET_DIR
 cargo build --offline --profile chk
 cargo build --offline --profile rel
+# AddressSanitizer build of the same harness (used by C13 thorough and C17): nightly toolchain, own target dir
+RUSTFLAGS="--cfg tsrun_verif -Zsanitizer=address" CARGO_TARGET_DIR="$CARGO_TARGET_DIR/asan" cargo +nightly build --offline --profile chk --target x86_64-unknown-linux-gnu || echo "setup: ASan build failed (C17 will retry and report)"
